@@ -20,6 +20,8 @@ EVID = os.path.join(VERIF, "evidence")
 REPLAYS = os.path.join(VERIF, "replays")
 KNOWN = os.path.join(VERIF, "KNOWN_FINDINGS.txt")
 NCPU = os.cpu_count() or 4
+STALL_S = 300.0  # seconds without any new log record before a child is considered hung (thorough / under valgrind)
+QUICK_STALL_S = 45.0  # the same for the quick tier, whose cases take milliseconds to a few seconds
 WARM_BASE = 1_000_000_000  # case indices at and above this are warm-up cases of a child process
 
 
@@ -106,7 +108,7 @@ def signame(rc):
     return SIGNAMES.get(-rc, "SIG%d" % -rc) if rc < 0 else "exit%d" % rc
 
 
-def run_child_cases(exe, scenario, seed, tier, shard, nshards, extra=None, timeout=900, workdir=None, max_restarts=400, env=None, prefix=None):
+def run_child_cases(exe, scenario, seed, tier, shard, nshards, extra=None, timeout=900, workdir=None, max_restarts=400, env=None, prefix=None, stall=None, max_stalls=3):
     """Run one shard of a scenario in child processes; a crash is attributed to the case whose
     intent record has no outcome record, and the child is restarted after that case.
     Returns (cases, summaries, notes).  Each case: dict(i, class, verdict, sig, detail)."""
@@ -115,6 +117,7 @@ def run_child_cases(exe, scenario, seed, tier, shard, nshards, extra=None, timeo
     cases, summaries, notes = [], [], []
     start = 0
     restarts = 0
+    stalls = 0
     while True:
         log = os.path.join(workdir, "%s-%s-%d-%d-%d.log" % (scenario, os.getpid(), shard, nshards, restarts))
         if os.path.exists(log):
@@ -124,14 +127,38 @@ def run_child_cases(exe, scenario, seed, tier, shard, nshards, extra=None, timeo
             cmd += ["--" + k, str(v)]
         t0 = time.time()
         timed_out = False
+        # the child is watched for progress: every case appends to the log, so a log that stops growing
+        # for `stall` seconds means the current case hangs (=> inconclusive for that case, never a violation)
+        stall_s = float(os.environ.get("VERIF_STALL_S", "0") or 0) or stall or (STALL_S if tier == "thorough" or prefix else QUICK_STALL_S)
+        errf = open(log + ".err", "wb")
+        proc = subprocess.Popen(cmd, stdout=subprocess.DEVNULL, stderr=errf, env=env)
+        last_size, last_change = -1, time.time()
+        rc = None
+        while True:
+            try:
+                rc = proc.wait(timeout=1.0)
+                break
+            except subprocess.TimeoutExpired:
+                pass
+            try:
+                sz = os.path.getsize(log)
+            except OSError:
+                sz = 0
+            now = time.time()
+            if sz != last_size:
+                last_size, last_change = sz, now
+            if now - last_change > stall_s or now - t0 > timeout:
+                proc.kill()
+                proc.wait()
+                timed_out = True
+                rc = None
+                break
+        errf.close()
         try:
-            p = subprocess.run(cmd, stdout=subprocess.PIPE, stderr=subprocess.PIPE, timeout=timeout, env=env)
-            rc = p.returncode
-            err = p.stderr.decode(errors="replace")[-2000:]
-        except subprocess.TimeoutExpired as e:
-            rc = None
-            timed_out = True
-            err = (e.stderr or b"").decode(errors="replace")[-2000:]
+            err = open(log + ".err", "rb").read().decode(errors="replace")[-2000:]
+            os.remove(log + ".err")
+        except OSError:
+            err = ""
         pending = None
         done = set()
         if os.path.exists(log):
@@ -188,7 +215,11 @@ def run_child_cases(exe, scenario, seed, tier, shard, nshards, extra=None, timeo
             continue
         i = pending["i"]
         if timed_out:
+            stalls += 1
             cases.append({"t": "outcome", "i": i, "class": pending.get("class", ""), "verdict": "inconclusive", "sig": "watchdog", "detail": {"desc": pending.get("desc"), "wall_s": round(time.time() - t0, 1)}})
+            if stalls >= max_stalls:
+                notes.append("shard %d/%d of %s stopped after %d hung cases; the remaining cases of the shard were not run" % (shard, nshards, scenario, stalls))
+                break
         else:
             crash_sig = (pending.get("desc") or {}).get("crash_sig", pending.get("class", ""))
             cases.append({"t": "outcome", "i": i, "class": pending.get("class", ""), "verdict": "violated", "sig": "crash:%s:%s" % (signame(rc), crash_sig), "detail": {"desc": pending.get("desc"), "status": signame(rc), "stderr": err[-400:]}})
@@ -320,7 +351,13 @@ class Run:
             lines.append("INCONCLUSIVE property=%s n=%d reason=%s" % (self.pid, n, r))
         for n in self.notes:
             lines.append("NOTE property=%s %s" % (self.pid, n))
-        # replay files for new violations (one per distinct signature, first witness)
+        # replay files for new violations (one per distinct signature, first witness); files of earlier
+        # runs of this property are removed so that the directory describes this run only
+        d0 = os.path.join(REPLAYS, self.pid)
+        if os.path.isdir(d0):
+            for f in os.listdir(d0):
+                if f.endswith(".json"):
+                    os.remove(os.path.join(d0, f))
         seen = set()
         replay_paths = []
         for c in new_viol:
